@@ -1,9 +1,9 @@
 SPECIFICATION Spec
 CONSTANTS
- Fam = "devOrder"
+ Fam = "R"
  Cases <- FamCases
  DevMono = FALSE
- DevNoOrder = TRUE
+ DevNoOrder = FALSE
  DevNoLinktype = FALSE
  DevFirstWins = FALSE
  DevAmbig = FALSE
@@ -21,4 +21,8 @@ CONSTANTS
  DevMissingCache = FALSE
  DevDegree = FALSE
 INVARIANT FinalIsExpected
+INVARIANT CallsSound
+INVARIANT MissingIsExpected
+INVARIANT BondXorMissing
+INVARIANT LemmaTables
 CHECK_DEADLOCK FALSE
